@@ -821,6 +821,10 @@ class StyleProperties:
       elif model_value.overline is False:
         actual_values.append("noOverline")
 
+      if len(actual_values) == 0:
+        # nothing is specified: tts:textDecoration="" is not valid
+        return
+
       attrib_value = " ".join(actual_values)
 
       xml_element.set(f"{{{cls.ns}}}{cls.local_name}", attrib_value)
